@@ -933,14 +933,9 @@ impl ProtocolState {
             return;
         }
 
-        // zero out everyone
-        let operations : Vec<u64> = self.operations.keys().copied().collect();
-        for id in operations {
-            let operation = self.operations.get_mut(&id).unwrap();
-            operation.slow_start_ack_value = 0;
-        }
-
-        // now mark all pending operations as part of slow start
+        // Operations marked by an earlier interruption stay marked until they are resolved: a connection
+        // that is lost again (possibly before its CONNACK) does not make them any less interrupted.
+        // Mark all pending operations as part of slow start
         // anything that completes before we reconect won't matter because we compute the
         // slow start sum at the moment we transition into the connected state
         let pending_non_publish_operations : Vec<u64> = self.pending_non_publish_operations.values().copied().collect();
